@@ -365,6 +365,59 @@ func TestRAC_C02(t *testing.T) {
 			break
 		}
 	}
+	// directed cases the generator does not reach: switches with many arms and the default not last, else-blocks
+	// that go on after an inner if, chains of else-if - with the statements the language selects, in order
+	manyArms := func(first string) string {
+		var sb strings.Builder
+		sb.WriteString("switch ( S ) {\n" + first)
+		for i := 0; i < 6; i++ {
+			fmt.Fprintf(&sb, "  case \"x%d\" { trace(\"x%d\"); }\n", i, i)
+		}
+		sb.WriteString("  case \"abλ\" { trace(\"literal\"); }\n  case /^a/ { trace(\"regexp\"); }\n  case \"a\" + \"bλ\" { trace(\"expression\"); }\n")
+		for i := 6; i < 12; i++ {
+			fmt.Fprintf(&sb, "  case \"x%d\" { trace(\"x%d\"); }\n", i, i)
+		}
+		sb.WriteString("}\nreturn 1;\n")
+		return sb.String()
+	}
+	dup := "switch ( 1 ) {\n  default { trace(\"d\"); }\n"
+	for _, c := range "abcdefghijklmnop" {
+		dup += fmt.Sprintf("  case 1 { trace(\"%c\"); }\n", c)
+	}
+	dup += "}\nreturn 2;\n"
+	for _, dc := range []struct {
+		src   string
+		trace []string
+		res   string
+	}{
+		{manyArms("  default { trace(\"default\"); }\n"), []string{"trace(STRING:literal)"}, "INTEGER:1"},
+		{manyArms(""), []string{"trace(STRING:literal)"}, "INTEGER:1"},
+		{strings.Replace(manyArms(""), "  case /^a/", "  default { trace(\"default\"); }\n  case /^a/", 1), []string{"trace(STRING:literal)"}, "INTEGER:1"},
+		{strings.Replace(manyArms("  default { trace(\"default\"); }\n"), "\"abλ\" {", "\"nope\" {", 1), []string{"trace(STRING:regexp)"}, "INTEGER:1"},
+		{dup, []string{"trace(STRING:a)"}, "INTEGER:2"},
+		{"if ( B0 ) { trace(1); } else { if ( B1 ) { trace(2); } trace(3); trace(4); }\ntrace(5);\nreturn 7;\n", []string{"trace(INTEGER:2)", "trace(INTEGER:3)", "trace(INTEGER:4)", "trace(INTEGER:5)"}, "INTEGER:7"},
+		{"if ( B0 ) { trace(1); } else if ( B0 ) { trace(2); } else if ( B1 ) { trace(3); } else if ( B1 ) { trace(4); } else { trace(5); }\ntrace(6);\n", []string{"trace(INTEGER:3)", "trace(INTEGER:6)"}, "NULL:null"},
+		{"v0 = 0;\nwhile ( v0 < 3 ) { if ( B0 ) { trace(1); } else { if ( v0 == 1 ) { trace(2); } v0 = v0 + 1; } }\nreturn v0;\n", []string{"trace(INTEGER:2)"}, "INTEGER:3"},
+	} {
+		for _, optimize := range []bool{true, false} {
+			rep.Programs++
+			rep.Runs++
+			re, err := newRacEval(dc.src, optimize)
+			if err != nil {
+				rep.Violations = append(rep.Violations, racVio{Kind: "directed-case-rejected", Script: dc.src, Expected: "accepted", Got: err.Error()})
+				continue
+			}
+			obj, _, desc := racObject(2, 2) // B1 true, the others false; S = "abλ"
+			o := re.run(obj, nil)
+			got := o.result
+			if o.failed {
+				got = "error"
+			}
+			if got != dc.res || fmt.Sprint(o.trace) != fmt.Sprint(dc.trace) {
+				rep.Violations = append(rep.Violations, racVio{Kind: fmt.Sprintf("directed-case(optimize=%v)", optimize), Script: dc.src, Input: desc, Expected: fmt.Sprint(dc.res, " ", dc.trace), Got: fmt.Sprint(got, " ", o.trace)})
+			}
+		}
+	}
 	for _, v := range rep.Violations {
 		t.Logf("RAC-VIOLATION kind=%s input=%s\nscript:\n%sexpected: %s\ngot:      %s", v.Kind, v.Input, v.Script, v.Expected, v.Got)
 	}
@@ -429,6 +482,12 @@ func genExtended(r *rand.Rand, maxDepth, maxSize int) (string, []string) {
 		// the same pooled literal (floats, integers above the immediate range) more than once, with and without a sign
 		"trace(2.5 || -2.5);\n", "if ( -2.5 || 2.5 ) { trace(31); }\n", "v0 = -70000;\nif ( 70000 ) { trace(32); }\n", "trace(-1.5 * 2);\ntrace(1.5);\n", "trace(70000 + -70000);\n",
 		"function gn() { return -2.5; }\ntrace(gn());\ntrace(2.5);\n", "trace(-(2.5));\ntrace(2.5 > 0);\n", "trace(!2.5);\ntrace(2.5);\n",
+		// powers whose exact value does not fit: the machine computes them in floating point
+		"trace(2 ** 64);\n", "trace(4 ** 32);\n", "trace(16 ** 16);\n", "trace(10 ** 64);\n", "trace(2 ** 63);\n", "trace(3 ** 40);\n", "trace(2 ** 62);\n", "trace(7 % 3);\n", "trace(0 - 7 % 3);\n", "trace(7 ** 0);\n", "trace(0 ** 0);\n",
+		"if ( 256 ** 8 == 0 ) { trace(51); } else { trace(52); }\n", "trace(2 ** -1);\n", "trace(12 % 5 ** 2);\n",
+		// conditions whose last instruction carries an operand that looks like an opcode
+		"if ( 13 ) { trace(53); } else { trace(54); }\n", "if ( 12 ) { trace(55); }\n", "v0 = 0;\nwhile ( 13 ) { v0++; if ( v0 > 2 ) { return v0; } }\n", "if ( [1, 2, 3, 4, 5, 6, 7, 8, 9, 10, 11, 12] ) { trace(56); }\n",
+		"if ( [1, 2, 3, 4, 5, 6, 7, 8, 9, 10, 11, 12, 13] ) { trace(57); } else { trace(58); }\n", "if ( id(1, 2, 3, 4, 5, 6, 7, 8, 9, 10, 11, 12, 13) ) { trace(59); } else { trace(60); }\n",
 		// comparisons with a NaN are all false: a negated comparison is not the opposite comparison
 		"trace(!(Q < 1));\n", "if ( !(Q >= 1) ) { trace(41); }\n", "trace(!(Q == Q));\n", "trace(!(F > Q) ? 1 : 2);\n", "v0 = !(Q <= N) ? 3 : 4;\n", "while ( !(Q > 0) ) { trace(42); return 1; }\n",
 		"trace(!(N < 1));\n", "trace(!(S == \"q\"));\n", "if ( !(M != 5) ) { trace(43); }\n", "trace(!(S ~= /b/));\n", "trace(!(S !~ /b/));\n",
@@ -1029,7 +1088,7 @@ func TestRAC_C08(t *testing.T) {
 
 var invalidFragments = []string{
 	"1 = 2", `"a" = 3`, "3 += 4", "a[0] -= 1", "4 /= 2", "a.b = 1", "f(1) = 2", "[1] = 2", "true = 1", "a.b += 1", "-a = 1",
-	"a ? b : c ? d : e", "a ? (b ? 1 : 2) : 3", "a ? b ? 1 : 2 : 3",
+	"a ? b : c ? d : e", "a ? (b ? 1 : 2) : 3", "a ? b ? 1 : 2 : 3", "a ? id(b ? 1 : 2) : 3", "a ? [b ? 1 : 2] : 3", "a ? id(1) : (b ? 2 : 3)", "a ? [] : (b ? 2 : 3)", "a ? id(1) + (b ? 2 : 3) : 1", "a ? {\"k\": (b ? 1 : 2)} : 3",
 	`"unterminated`, "'unterminated", "(1 + ", "[1, ", `{"k": `, "f(1, ", "1 +", "* 2", "1 + + ", "#", "@x", "a ~", "a.(1=2)", `a.("f"=3)`,
 }
 
@@ -1039,6 +1098,7 @@ var fragmentContexts = []string{
 	"switch ( 1 ) { case 1 { %s; } }", "switch ( 1 ) { default { %s; } }", "v = %s;", "return %s;", "id(%s);", "id(1, %s);", "v = [%s];", "v = [1, %s];", `v = {"k": %s};`,
 	"return 1; %s;", "if ( 1 ) { return 1; %s; }", "function g() { return 1; %s; }", "while ( 0 ) { return 2; %s; }", "foreach x in [1] { return x; %s; }",
 	"if ( false ) { %s; }", "if ( true ) { } else { %s; }", "while ( false ) { %s; }", "if ( 1 == 2 ) { %s; }", "v = false ? %s : 2;", "v = true ? 2 : %s;", "v = false && %s;", "v = true || %s;",
+	"v = {\"a\": 1, \"a\": [%s]};", "v = {\"a\": [%s], \"a\": 1};", "v = {1: 1, 1: %s};", "v = {true: 1, true: id(%s)};", "v = {\"k\": 1, \"k\": 1, \"k\": %s};",
 	"(%s)(2);", "return (%s)();", "v = id(1)(%s);", "(%s).len();",
 	"if ( false ) { function h() { %s; } }", "for ( false ) { %s; }", "switch ( 1 ) { case 2 { %s; } }", "if ( 0 ) { return %s; }",
 	"v = L[%s];", "v = 1 ? %s : 2;", "v = 1 ? 2 : %s;", "v = (%s);", "v = !(%s);", "v = 1 + (%s);", "return id([%s])[0];",
@@ -1143,6 +1203,19 @@ func TestRAC_C13(t *testing.T) {
 // the compiler re-assembles it - a round trip no contract covers (strings are uninterpreted in the
 // verifier).  Here: patterns x flags x subjects, `S ~= /P/flags` and `S !~ /P/flags` against Go's regexp
 // package applied the way the match built-in applies it (per line, trimmed).
+
+// rawValue: the value an object holds, printed by the harness (not by the engine's Inspect)
+func rawValue(o object.Object) string {
+	switch x := o.(type) {
+	case *object.Float:
+		return strconv.FormatFloat(x.Value, 'g', -1, 64)
+	case *object.Integer:
+		return strconv.FormatInt(x.Value, 10)
+	case *object.String:
+		return strconv.Quote(x.Value)
+	}
+	return o.Inspect()
+}
 
 func TestRAC_C14(t *testing.T) {
 	rep := &racReport{Property: "C14", Seed: envInt("VERIF_SEED", 0)}
@@ -1285,7 +1358,8 @@ func TestRAC_C14(t *testing.T) {
 		}
 	}
 	// ---- numeric literals denote their decimal value
-	for _, lit := range []string{"0", "7", "007", "42", "0100", "010", "08", "9223372036854775807", "65535", "65536", "32768", "1.5", "1.05", "0.001", "12.0625", "10.50", "0.0", "3.14159", "100.001", "00.5", "1.00", "0.1", "1.010", "0.05", "123456789.000001"} {
+	for _, lit := range []string{"0", "7", "007", "42", "0100", "010", "08", "9223372036854775807", "65535", "65536", "32768", "1.5", "1.05", "0.001", "12.0625", "10.50", "0.0", "3.14159", "100.001", "00.5", "1.00", "0.1", "1.010", "0.05", "123456789.000001",
+		"0.00000000012345671", "0.00000000012345674", "1000000400000000000000000.0", "1000000000000000000000000.0", "0.000000001", "0.0000000001", "123456789012345678901234.5", "9223372036854775808.0", "9007199254740993.0"} {
 		want := ""
 		if strings.Contains(lit, ".") {
 			f, _ := strconv.ParseFloat(lit, 64)
@@ -1311,11 +1385,66 @@ func TestRAC_C14(t *testing.T) {
 				if perr == nil {
 					if out, err := e.Execute(nil); err == nil {
 						got = showObj(out)
+						// the value itself, not only its printed form (which goes through the engine's own printer on both sides)
+						switch o := out.(type) {
+						case *object.Float:
+							if f, perr := strconv.ParseFloat(lit, 64); !strings.Contains(lit, ".") || perr != nil || o.Value != f {
+								got = fmt.Sprintf("FLOAT with the value %v", o.Value)
+							}
+						case *object.Integer:
+							if i, perr := strconv.ParseInt(lit, 10, 64); strings.Contains(lit, ".") || perr != nil || o.Value != i {
+								got = fmt.Sprintf("INTEGER with the value %v", o.Value)
+							}
+						}
 					}
 				}
 				if got != w && len(rep.Violations) < 16 {
-					rep.Violations = append(rep.Violations, racVio{Kind: "numeric-literal", Script: src, Input: fmt.Sprintf("optimize=%v", optimize), Expected: w, Got: got})
+					rep.Violations = append(rep.Violations, racVio{Kind: "numeric-literal", Script: src, Input: fmt.Sprintf("optimize=%v", optimize), Expected: w + " (the value " + lit + ")", Got: got})
 				}
+			}
+		}
+	}
+	// several literals in one script stay themselves (the constant pool keeps literals apart that merely print alike)
+	for _, group := range [][]string{{"0.00000000012345671", "0.00000000012345674"}, {"1000000400000000000000000.0", "1000000000000000000000000.0"}, {"1", "1.0", "\"1\""}, {"0.1", "0.10", "\"0.1\""},
+		{"65535", "65536", "65535.0"}, {"\"a\\tb\"", "\"a\tb\""}, {"\"x\\ny\"", "\"x\\\\ny\""}} {
+		src := "return [" + strings.Join(group, ", ") + "];"
+		var wants []string
+		for _, g := range group {
+			one := New("return " + g + ";")
+			if one.Prepare() != nil {
+				wants = nil
+				break
+			}
+			o, err := one.Execute(nil)
+			if err != nil {
+				wants = nil
+				break
+			}
+			wants = append(wants, string(o.Type())+":"+rawValue(o))
+		}
+		for _, optimize := range []bool{true, false} {
+			rep.Programs++
+			rep.Runs++
+			e := New(src)
+			var perr error
+			if optimize {
+				perr = e.Prepare()
+			} else {
+				perr = e.Prepare([]byte{NoOptimize})
+			}
+			got := []string{"error"}
+			if perr == nil {
+				if out, err := e.Execute(nil); err == nil {
+					if arr, ok := out.(*object.Array); ok {
+						got = nil
+						for _, el := range arr.Elements {
+							got = append(got, string(el.Type())+":"+rawValue(el))
+						}
+					}
+				}
+			}
+			if wants != nil && fmt.Sprint(got) != fmt.Sprint(wants) && len(rep.Violations) < 16 {
+				rep.Violations = append(rep.Violations, racVio{Kind: "literals-in-one-script", Script: src, Input: fmt.Sprintf("optimize=%v", optimize), Expected: fmt.Sprint(wants) + " (each literal on its own)", Got: fmt.Sprint(got)})
 			}
 		}
 	}
